@@ -146,6 +146,16 @@ def run_case(ck, desc):
             with warnings.catch_warnings(), np.errstate(all="ignore"):
                 warnings.simplefilter("ignore")
                 rf = np.array(res.recovery_factor(), copy=True)
+                # what the object happens to have stored last must not matter: an in-place recovery,
+                # or a returned array that the caller has edited, before the figure is drawn
+                how = int(desc["grid"]["seed"]) % 3
+                if how == 1 and fluid is not None and "density" in fluid.pvt_props:
+                    res.recovery_factor(density=True)
+                    ck.count("recovery_plots_after_density_recovery")
+                elif how == 2:
+                    got_arr = res.recovery_factor()
+                    got_arr *= 0.5
+                    ck.count("recovery_plots_after_caller_edited_array")
                 f = bp.plot_recovery_factor if desc["which"] == "factor" else bp.plot_recovery_rate
                 ax = f(res, change_ticks=desc["ticks"])
             got = _lines(ax)
